@@ -220,14 +220,19 @@ def coq_audit(prop, log, allowed_axioms):
         for m in FORBIDDEN.finditer(src):
             line = src.count("\n", 0, m.start()) + 1
             problems.append(f"{os.path.relpath(f, VERIF)}:{line}: forbidden token {m.group(0)!r}")
-        depth = 0
+        stack = []
         for ln, line in enumerate(src.splitlines(), 1):
             s = line.strip()
-            if re.match(r"^Section\b", s):
-                depth += 1
-            elif re.match(r"^End\b", s) and depth > 0:
-                depth -= 1
-            elif re.match(r"^(Variable|Variables|Hypothesis|Hypotheses|Context)\b", s) and depth == 0:
+            m = re.match(r"^(Section|Module(?:\s+Type)?)\s+([\w']+)", s)
+            if m and not re.search(r":=", s):
+                stack.append(("S" if m.group(1) == "Section" else "M", m.group(2)))
+                continue
+            m = re.match(r"^End\s+([\w']+)\s*\.", s)
+            if m and stack and stack[-1][1] == m.group(1):
+                stack.pop()
+                continue
+            in_section = any(k == "S" for k, _ in stack)
+            if re.match(r"^(Variable|Variables|Hypothesis|Hypotheses|Context)\b", s) and not in_section:
                 problems.append(f"{os.path.relpath(f, VERIF)}:{ln}: {s.split()[0]} outside a section")
     closed, axioms = parse_assumptions(log)
     extra = {a for a in axioms if a not in allowed_axioms and not AX_PRIMINT.match(a)}
